@@ -45,6 +45,7 @@ type scen struct {
 	Props    []string
 	IDs      []uint32
 	Qlen     int
+	Overflow bool // an overflow of a receive queue may happen through the schedule alone (reader delayed)
 	Writers  []wspec
 	Readers  []rspec
 	Closers  []cspec
@@ -104,6 +105,11 @@ var scens = []scen{
 	{Name: "c11-overflow", Props: []string{"C11"}, IDs: []uint32{1, 2}, Qlen: 1,
 		Writers: []wspec{{"A", 1, []int{1, 2, 3}}, {"A", 2, []int{1}}},
 		Readers: []rspec{{"B", 1, 1}, {"B", 2, 0}}, Bound: [2]int{2, 4}},
+	// the reader is not limited: the overflow comes from the schedule (reader delayed), and the reader
+	// goes on reading afterwards - what it receives must still be a prefix (no frame skipped)
+	{Name: "c11-overflow-late-reader", Props: []string{"C11"}, IDs: []uint32{1}, Qlen: 1, Overflow: true,
+		Writers: []wspec{{"A", 1, []int{1, 2, 3, 4}}},
+		Readers: []rspec{{"B", 1, 0}}, Bound: [2]int{2, 3}},
 	{Name: "c11-overflow-oversized", Props: []string{"C11"}, IDs: []uint32{1}, Qlen: 2,
 		Writers: []wspec{{"A", 1, []int{2*maxPayload + 1}}},
 		Readers: []rspec{{"B", 1, 1}}, Bound: [2]int{2, 3}},
@@ -635,6 +641,9 @@ func (w *world) hasConnCloser() bool {
 }
 
 func (w *world) overflowExpected() bool {
+	if w.sc.Overflow {
+		return true
+	}
 	for _, r := range w.sc.Readers {
 		if r.MaxFrames > 0 {
 			return true
